@@ -16,6 +16,8 @@ every pair that must stay ordered (merge_round_problem), i.e. for every linearis
 """
 from __future__ import annotations
 
+import json
+
 import itertools
 
 import networkx as nx
@@ -44,7 +46,7 @@ ASSUMPTIONS = [
     "measurement (shares a mode with it or reads its result), or a mode measured twice",
 ]
 REQUIRED_LABELS = {"all": ["measured_param_dependency", "feedback_onto_measured_mode", "marked_between_unmarked", "measurefock_multi",
-                           "gbs_accepted", "gbs_rejected", "all_toposorts_checked"]}
+                           "gbs_accepted", "gbs_rejected", "all_toposorts_checked", "circuit_deletes_modes", "operation_object_applied_twice_to_same_modes"]}
 
 _STATE = {}
 NREG = 16
@@ -187,6 +189,8 @@ def make_cmd(item, k=0):
         op = ops.Kgate(regs[dep[0]].par)
     elif kind == "pk":
         op = ops.Ket(np.array([0.0, 1.0]))
+    elif kind == "del":
+        op = ops.Del  # the library's single _Delete instance, as written by `Del | q[m]`
     else:
         raise ValueError(kind)
     return pu.Command(op, [regs[m] for m in modes])
@@ -395,11 +399,38 @@ def optimize_problem(items, cmds, out, label):
 
 
 def check_seq(ctx, case):
+    """modes deleted at the end of the circuit (`Del | q[m]`): their RegRefs are inactive by the time any routine sees the circuit, exactly
+    as in a user's program (the shared register is restored afterwards)"""
+    e = _env()
+    dels = [m for it in remap(case["seq"], case.get("mode_map")) if it[0] == "del" for m in it[1]]
+    try:
+        return _check_seq(ctx, case, dels)
+    finally:
+        for m in dels:
+            e["regs"][m].active = True
+
+
+def _check_seq(ctx, case, dels=()):
     e = _env()
     ops, pu, GBS, regs = e["ops"], e["pu"], e["GBS"], e["regs"]
     mode_map = case.get("mode_map")
     items = remap(case["seq"], mode_map)
     cmds = [make_cmd(it, k) for k, it in enumerate(items)]
+    has_del = bool(dels)
+    for m in dels:  # the commands were written while the subsystems existed
+        regs[m].active = False
+    shared_ops = False
+    if case.get("share_ops"):
+        # ONE Operation object applied several times to the same subsystems (a gate defined once and used in every layer): the commands
+        # are distinct objects that share .op (seeded change C04-F gave Command value equality, which collapses them in the DAG)
+        first = {}
+        for k, it in enumerate(items):
+            key = json.dumps([it[0], it[1], it[2]])
+            if key in first:
+                cmds[k] = pu.Command(cmds[first[key]].op, list(cmds[first[key]].reg))
+                shared_ops = True
+            else:
+                first[key] = k
     n = len(cmds)
     used = sorted(mode_map) if mode_map else list(range(case["nm"]))
 
@@ -432,8 +463,12 @@ def check_seq(ctx, case):
             if it[0] in ("r", "ri") and w in last and items[last[w]][0] in ("r", "ri") and items[last[w]][0] != it[0]:
                 labels.append("inverse_pair_neighbours")
             last[w] = k
-    if case.get("api"):
+    if case.get("api") and not has_del:
         labels.append("program_api")
+    if has_del:
+        labels.append("circuit_deletes_modes")
+    if shared_ops:
+        labels.append("operation_object_applied_twice_to_same_modes")
     ctx.note(case, nontrivial=(nconf >= 1 and nind >= 1), labels=sorted(set(labels)))
 
     # --- list_to_grid: rows are in temporal order and contain the command on each dependency wire
@@ -557,7 +592,7 @@ def check_seq(ctx, case):
         return ctx.fail(*pr)
 
     # --- the same routines reached through the Program API (Program.compile(compiler="gbs").circuit, Program.optimize)
-    if case.get("api"):
+    if case.get("api") and not has_del:
         prog = e["prog"]
         prog.circuit = list(cmds)
         for opt in (False, True):
@@ -833,8 +868,13 @@ def random_case(draw):
         seq.append(["mf", perm[:cut], None])
         if perm[cut:]:
             seq.append(["mf", perm[cut:], None])
+    if draw(st.integers(0, 3)) == 0:
+        for m in sorted(draw(st.permutations(range(nm)))[:draw(st.integers(1, 2))]):
+            seq.append(["del", [m], None])
     order = draw(st.lists(st.integers(0, 7), max_size=6))
     case = {"nm": nm, "seq": seq, "grid_order": order}
+    if draw(st.integers(0, 2)) == 0:
+        case["share_ops"] = True
     mm = draw(mode_map_of(nm))
     if mm:
         case["mode_map"] = mm
